@@ -685,6 +685,9 @@ func (w *vfWorld) finishStep(p *vfPrepared) {
 	if p.intent.Role != nil {
 		m.observeRole(ctx, p.intent, resp)
 	}
+	if p.intent.Aws != nil {
+		m.observeAws(ctx, p.intent, resp)
+	}
 	for _, ob := range w.observers {
 		ob(p, ctx, resp)
 	}
